@@ -50,16 +50,30 @@ Definition ref_d0 : dataset :=
                              (ImplementationCostVar, 250 # 1)] ]
     (fun _ _ => mkCtx (1 # 5) (9 # 1) (7 # 2) (11 # 3) 0 0) None.
 
+(* the three tables behind "tables.csv": subcatchments 3 and 5, a gully in 3, a Gully row for 3 and a Hillslope row for 5 --
+   and behind "dangling.csv": the same with a second gully in subcatchment 9, which is not listed *)
+Definition ref_shape : data_shape :=
+  mkShape [CNum 3; CNum 5] true [CNum 3] true [(CNum 3, "Gully"); (CNum 5, "Hillslope")] true.
+Definition ref_shape_dangling : data_shape :=
+  mkShape [CNum 3; CNum 5] true [CNum 3; CNum 9] true [(CNum 3, "Gully"); (CNum 5, "Hillslope")] true.
+
 (* the world the witnesses live in: "data.csv" is readable and is [ref_d0]; "broken.csv" is readable, loads, but lacks a table;
-   "notes.txt" is readable and is no data set; the output path "out" is usable, "file" is an existing file; the directory "nowhere"
-   does not exist; no Excel *)
+   "notes.txt" is readable and is no data set; "tables.csv" / "dangling.csv" name three tables each (see above; "tables.csv" names
+   "t/sub.csv", "t/gullies.csv", "t/actions.csv"); the output path "out" is usable, "file" is an existing file; the directory "nowhere"
+   does not exist; a file name may be 255 bytes long; the working directory is "/work"; no Excel *)
 Definition ref_env : env := mkEnv
-  (fun p => existsb (String.eqb p) ["data.csv"; "broken.csv"; "notes.txt"])
-  (fun p => if p =? "data.csv" then DataOk ref_d0 else if p =? "broken.csv" then DataMalformed else DataUnloadable)
+  (fun p => existsb (String.eqb p) ["data.csv"; "broken.csv"; "notes.txt"; "tables.csv"; "dangling.csv"])
+  (fun p => if p =? "data.csv" then DataOk ref_d0 else if p =? "broken.csv" then DataMalformed
+            else if p =? "tables.csv" then DataTables ref_shape ref_d0
+            else if p =? "dangling.csv" then DataTables ref_shape_dangling ref_d0 else DataUnloadable)
   (fun p => p =? "file") (fun p => negb (p =? "file"))
   (fun p => negb (p =? "nowhere/prof")) (fun p => negb (p =? "nowhere/prof"))
   false
-  (fun _ => true).
+  (fun _ => true)
+  (fun f => (String.length f <=? 255)%nat)
+  "/work"
+  (fun p => if p =? "tables.csv" then ["tables.csv"; "t/sub.csv"; "t/gullies.csv"; "t/actions.csv"]
+            else if p =? "data.csv" then ["data.csv"] else []).
 
 (* a minimal accepted document: Scenario.Name, Scenario.OutputPath, Annealer.Type (+ parameters), Model.Type (+ parameters) *)
 Definition doc (name : string) (annealer : string) (aparams : pmap) (model : string) (mparams : pmap) : config :=
